@@ -70,6 +70,7 @@ def effForms : Eff → List (List String)
   | .finishSucc => [["finishsucc"]]
   | .exitHold => [[]]
   | .exitIdle => [[]]
+  | .serveLit => [["lit{notify}"]]
   | .guard g b => [[s!"{guardStr g}={b01 b}"]]
 
 def pathForms : List Eff → List (List String)
